@@ -111,6 +111,8 @@ type Group struct {
 	history     []ChatHistoryEntry
 	timestamp   time.Time
 	data        map[string]interface{}
+	// set when the group has been removed from the list of groups
+	deleted bool
 }
 
 func (g *Group) Name() string {
@@ -599,6 +601,7 @@ func deleteUnlocked(g *Group) bool {
 	}
 
 	delete(groups.groups, g.name)
+	g.deleted = true
 	return true
 }
 
@@ -609,6 +612,11 @@ func AddClient(group string, c Client, creds ClientCredentials) (*Group, error) 
 	}
 
 	g.mu.Lock()
+	if g.deleted {
+		// the group was deleted after Add returned it
+		g.mu.Unlock()
+		return AddClient(group, c, creds)
+	}
 	defer g.mu.Unlock()
 
 	clients := g.getClientsUnlocked(nil)
